@@ -293,6 +293,15 @@ HARNESSES.append(
             functions=["_runner.py:_Runner._process_with_event", "_processor.py:_Processor.process"],
             covers=["stopped", "requeued"],
             stubs=["signal delivery = the captured handler is called at the start of loop iteration k"]))
+from harness.c03 import h03_stop_steps  # noqa: E402
+
+HARNESSES.append(
+    Harness(name="H04-stop-steps-during-retry", scenario=h03_stop_steps, workers=16, budget_s=900,
+            params={"quick": {"n_msgs": 1, "kinds": (1,), "max_steps": 12}, "thorough": {"n_msgs": 2, "kinds": (1,), "max_steps": 20}},
+            bounds={"as H03-stop-steps": "a failing job with a retry left: the stop request arrives while the actor runs, the actor ends 0..12 / 0..20 loop steps later, graceful period 0"},
+            functions=["_runner.py:_Runner._process_with_event", "_processor.py:_Processor.process"],
+            covers=["stopped"],
+            stubs=["signal delivery = the captured handler is called from inside the actor"]))
 ASSUMPTIONS = [
     "step/chain harnesses use the in-memory broker; Redis and RabbitMQ back-off delivery is checked at the client boundary on fake servers",
 ]
